@@ -344,6 +344,7 @@ Expected(s, q) ==
          ELSE IF ~MktOpen(s, q.mid) THEN "REFUSE"
          ELSE IF ~ValidateOrder(s, q) THEN "REFUSE"
          ELSE "ANY"
+    ELSE IF ~Has(s.ord, q.o) THEN "ANY"
     ELSE IF ~q.force /\ ~MktOpen(s, q.mid) THEN "REFUSE"
     ELSE IF q.force THEN (IF GuardOk(s, q) THEN "ACCEPT" ELSE "ERROR")
     ELSE IF ~GuardOk(s, q) THEN "ERRORorREFUSE"
@@ -367,6 +368,8 @@ ReqOne(s, q) ==
                                        !.live = AppendNew(rc.live, q.t),
                                        !.lastp = s.clock])]
          IN IF q.ctx THEN ExitTrade(s2, q.t) ELSE s2
+    ELSE IF q.r = "REFUSE" /\ Has(s.ord, q.o) /\ s.ord[q.o].status \in {"NONE", "VIOLATION"}
+    THEN ClearUpd(SetStatus(s, q.o, "VIOLATION"), q.o)   \* never placed: marked a violation (again)
     ELSE IF q.r # "ACCEPT" THEN s     \* refused or rejected: nothing changes (C02)
     ELSE IF q.kind = "CANCEL"
     THEN SetStatus([s EXCEPT !.ord[q.o].red = q.red], q.o, "CANCELLING")
@@ -402,6 +405,7 @@ Step(s, e, n) ==
       [] e.ev = "sweep" -> StepSweep(s, e)
       [] e.ev = "cb"    -> StepCb(s, e)
       [] e.ev = "close" -> StepClose(s, e, n)
+      [] e.ev = "qclear" -> [s EXCEPT !.hq = <<>>]   \* FlumineSimulation.run: handler_queue.clear()
       [] OTHER          -> s
 
 =============================================================================
